@@ -156,6 +156,15 @@ def evaluate(mod, case, stats, known_open, shrinking=False, corner=False):
             with warnings.catch_warnings():
                 warnings.simplefilter("ignore")
                 out = mod.run(case)
+    except ValueError as e:
+        # a comparison between a returned array and the expected one that numpy cannot even line up means the function
+        # handed back an array of the wrong shape: that is a malformed result, not a harness problem
+        if "could not be broadcast" not in str(e) and "shape mismatch" not in str(e):
+            raise HarnessError(traceback.format_exc() + "\ncase=" + json.dumps(trunc(case), default=str)[:3000])
+        tb = [f for f in traceback.extract_tb(e.__traceback__) if os.sep + "props" + os.sep in f.filename]
+        where = tb[-1].name if tb else "run"
+        out = Outcome()
+        out.fail(f"malformed_output:{where}", "returned array does not have the expected shape: " + str(e)[:160])
     except Exception:  # harness / oracle bug: never a VIOLATION
         raise HarnessError(traceback.format_exc() + "\ncase=" + json.dumps(trunc(case), default=str)[:3000])
     finally:
